@@ -456,6 +456,18 @@ def _run_grad(case, T, rng, g, dtype, base):
             return _fail(base, "C15.Grad", f"Grad: unreachable input {i} did not get zeros", res[x], w)
     if len(T.Grad(outputs, [], retain_graph=True)(T.Gradients(cot))) != 0:
         return _fail(base, "C15.Grad", "Grad with no input does not return an empty dictionary")
+    # no output: the vector-Jacobian product is the empty sum.  The allocator is dirtied first, so that a result taken from
+    # uninitialised memory is visibly non-zero.
+    for x in inputs:
+        junk = torch.full(x.shape, 7.0, dtype=x.dtype)
+        del junk
+    res0 = T.Grad([], inputs, retain_graph=True)(T.Gradients({}))
+    if set(map(id, res0.keys())) != set(map(id, inputs)):
+        return _fail(base, "C15.Grad.no_outputs", "Grad with no output: wrong key set")
+    for i, x in enumerate(inputs):
+        if res0[x].shape != x.shape or bool((res0[x] != 0).any()):
+            return _fail(base, "C15.Grad.no_outputs", f"Grad with no output: input {i} did not get zeros of its shape", res0[x],
+                         torch.zeros_like(x))
     return dict(base, ok=True, nontrivial=len(inputs) >= 2 and bool((J != 0).any()))
 
 
